@@ -161,7 +161,7 @@ func checkC18(p *Prog, r *Report) {
 		}
 		/* The loop covers the whole slice: index is a range index over len(data). */
 		sia := escStore.Addr.(*ssa.IndexAddr)
-		if wholeRange(sia.Index, data) {
+		if wholeRange(sia.Index, data) || rangesOverAll(sia.Index, data, -1) {
 			rSan.OK(c+":whole-slice", posOf(escStore), "the escape loop ranges over every element")
 		} else {
 			rSan.Bad(c+":whole-slice", posOf(escStore), "the escape is not applied by a range over the whole slice: some rows reach the template unescaped")
@@ -271,9 +271,22 @@ func checkC18(p *Prog, r *Report) {
 		/* A hand-written "keep a row unless it equals the last one kept". */
 		dedupe, rowsV = dl, dl.Src
 	}
-	rs := valueRoots(rowsV, func(n string) bool {
-		return "slices.Compact" == n || "slices.DeleteFunc" == n
-	})
+	/* Or the rows are the sorted keys of a set: distinct and sorted by
+	construction; what matters is what is put into the set. */
+	set := sortedSetRows(rowsV)
+	if nil != set {
+		rowsV = nil
+	}
+	var rs []Root
+	if nil != rowsV {
+		rs = valueRoots(rowsV, func(n string) bool {
+			return "slices.Compact" == n || "slices.DeleteFunc" == n
+		})
+	} else {
+		for _, k := range set.Keys {
+			rs = append(rs, valueRoots(k, nil)...)
+		}
+	}
 	var split *ssa.Call
 	fields := false
 	okRoots := true
@@ -328,6 +341,8 @@ func checkC18(p *Prog, r *Report) {
 		}
 	})
 	switch {
+	case nil != set:
+		rRows.OK(c+":sorted-distinct", posOf(set.Sorted), "the sorted keys of a set: sorted and distinct by construction")
 	case nil != srt && nil != cmp && instrDominates(srt, cmp) && (nil == escAt || instrDominatesLoop2(cmp, escAt)):
 		rRows.OK(c+":sorted-distinct", posOf(cmp), "sorted, then slices.Compact, before escaping")
 	case nil != srt && nil != dedupe && srt.Common().Args[0] == dedupe.Src && instrDominates(srt, dedupe.Append) && (nil == escAt || !canReach(locOf(escAt), dedupe.Append)):
@@ -336,6 +351,8 @@ func checkC18(p *Prog, r *Report) {
 		rRows.Bad(c+":sorted-distinct", posOf(exec), "rows are not sorted and de-duplicated before being escaped")
 	}
 	switch {
+	case nil != set && set.NonEmpty:
+		rRows.OK(c+":non-empty", posOf(set.Sorted), "only non-empty rows are put into the set")
 	case nil != del:
 		rRows.OK(c+":non-empty", posOf(del), "empty rows are removed")
 	case fields:
@@ -1110,4 +1127,78 @@ func sameConstString(a, b ssa.Value) bool {
 	x, ok1 := constString(stripConv(a, true))
 	y, ok2 := constString(stripConv(b, true))
 	return ok1 && ok2 && x == y
+}
+
+// setRows is "rows := slices.Sorted(maps.Keys(set))" with everything put into
+// the set.
+type setRows struct {
+	Sorted   *ssa.Call
+	Keys     []ssa.Value /* every key inserted */
+	NonEmpty bool        /* each insertion is below a test that the key is not "" */
+}
+
+func sortedSetRows(v ssa.Value) *setRows {
+	srt, ok := stripConv(resolveCell(v), false).(*ssa.Call)
+	if !ok {
+		return nil
+	}
+	if n := calleeName(srt.Common()); !strings.HasPrefix(n, "slices.Sorted") || strings.HasPrefix(n, "slices.SortedFunc") {
+		return nil
+	}
+	keys, ok := srt.Common().Args[0].(*ssa.Call)
+	if !ok || !strings.HasPrefix(calleeName(keys.Common()), "maps.Keys") {
+		return nil
+	}
+	m, ok := resolveCell(keys.Common().Args[0]).(*ssa.MakeMap)
+	if !ok {
+		return nil
+	}
+	out := &setRows{Sorted: srt, NonEmpty: true}
+	for _, ref := range *m.Referrers() {
+		switch x := ref.(type) {
+		case *ssa.MapUpdate:
+			if x.Map != ssa.Value(m) {
+				return nil
+			}
+			out.Keys = append(out.Keys, x.Key)
+			/* Guard: key != "". */
+			guarded := false
+			for _, b := range x.Parent().Blocks {
+				ifi := blockIf(b)
+				if nil == ifi {
+					continue
+				}
+				dc := decodeCond(ifi.Cond)
+				if nil == dc.Y || dc.X != x.Key {
+					continue
+				}
+				if sv, isS := constString(dc.Y); !isS || "" != sv {
+					continue
+				}
+				k := 1
+				if !dc.Eq {
+					k = 0
+				}
+				if edgeDominates(ifi, k, x) {
+					guarded = true
+				}
+			}
+			if !guarded {
+				out.NonEmpty = false
+			}
+		case *ssa.Call:
+			if x != keys {
+				if bi, isB := x.Common().Value.(*ssa.Builtin); !isB || "len" != bi.Name() {
+					return nil
+				}
+			}
+		case *ssa.DebugRef, *ssa.Lookup:
+		default:
+			return nil
+		}
+	}
+	if 0 == len(out.Keys) {
+		return nil
+	}
+	return out
 }
